@@ -350,6 +350,10 @@ class BusCookieAuthenticator :
         hash_str = None
         shash = 1
         try:
+            if isinstance(response, str):
+                # BusAuthenticator.stepAuth hands over the decoded text
+                response = response.encode('ascii')
+
             client_challenge, hash_str = response.split()
 
             tohash = (
